@@ -125,6 +125,11 @@ WTpl(x) ==
      NTpl("q", <<NTLit(" a "), NInterp(2, x), NTLit(" a ")>>),
      NTpl("q", <<NTLit(" a "), NInterp(3, x), NTLit(" ")>>),
      NTpl("q", <<NInterp(0, x), NInterp(0, NVar("n1"))>>),
+     \* a literal that a strip marker trims to nothing still makes the template a string template
+     NTpl("q", <<NInterp(2, x), NTLit(" ")>>),
+     NTpl("q", <<NTLit(" "), NInterp(1, x)>>),
+     NTpl("q", <<NTLit(" "), NInterp(3, x), NTLit("  ")>>),
+     NTpl("q", <<NInterp(3, x)>>),
      NTpl("q", <<NTIf(0, x, NTpl("q", <<NTLit("a")>>), NTpl("q", <<NTLit("b")>>))>>),
      NTpl("q", <<NTIf(0, x, NTpl("q", <<NTLit("a")>>), NNone)>>),
      NTpl("q", <<NTLit("x"), NTIf(0, NVar("b"), NTpl("q", <<NInterp(0, x)>>), NNone)>>),
@@ -165,6 +170,8 @@ HLines(x) ==
      <<NHLine(3, <<NTLit("a")>>), NHLine(2, <<>>), NHLine(3, <<NTLit("b")>>)>>,
      <<NHLine(2, <<NTLit("a")>>), NHLine(0, <<>>), NHLine(4, <<NInterp(0, x), NInterp(0, NVar("s"))>>)>>,
      <<NHLine(1, <<NTLit("x"), NInterp(0, x), NTLit("b c")>>)>>,
+     <<NHLine(0, <<NInterp(2, x)>>)>>,
+     <<NHLine(2, <<NInterp(3, x)>>), NHLine(1, <<NTLit("b")>>)>>,
      \* lines that START with an interpolation or directive at column 0 between indented lines
      <<NHLine(4, <<NTLit("a")>>), NHLine(0, <<NInterp(0, x)>>), NHLine(4, <<NTLit("b")>>)>>,
      <<NHLine(0, <<NInterp(0, x), NTLit("a")>>), NHLine(2, <<NTLit("b")>>)>>,
